@@ -18,6 +18,10 @@ SCRIPTS = {
     # negative contents reached through histogram + histogram (a negative operand made legally earlier), in-place add, over-subtraction, setter
     "F": [("enter", 0), ("addneg",), ("exit",), ("addneg",), ("subover",)],
     "G": [("set", 0), ("iaddneg",), ("setneg",)],
+    # short scripts for the three-task instance
+    "H": [("enter", 0), ("read",), ("exit",)],
+    "I": [("set", 0), ("read",)],
+    "J": [("read",), ("arith",)],
 }
 
 
@@ -119,7 +123,8 @@ class C19Schedules(Harness):
                     continue
                 yield f"sched-{a}{b}-{kinds[0]}-{kinds[1]}", dict(scripts=[a, b], kinds=list(kinds), env="unset")
         if tier != "quick":
-            yield "sched-ABD-copy-fresh-copy", dict(scripts=["A", "B", "D"], kinds=["copy", "fresh", "copy"], env="unset")
+            yield "sched-HIJ-copy-fresh-copy", dict(scripts=["H", "I", "J"], kinds=["copy", "fresh", "copy"], env="unset")
+            yield "sched-HHI-copy-copy-fresh", dict(scripts=["H", "H", "I"], kinds=["copy", "copy", "fresh"], env="unset")
         for env in ("0", "1", "true", ""):
             yield f"sched-DD-env{env or 'empty'}", dict(scripts=["D", "D"], kinds=["fresh", "copy"], env=env)
 
